@@ -1512,6 +1512,42 @@ func keyPieces(fn *ssa.Function, v ssa.Value) ([]string, bool) {
 			}
 			return out, true
 		}
+		// a helper of the repository that builds the key from its parameters: its pieces, with the helper's parameters
+		// replaced by what the caller hands it
+		if g := x.Call.StaticCallee(); g != nil && core.InRepo(g) && len(g.Blocks) > 0 && g != fn {
+			var inner []string
+			for _, gb := range g.Blocks {
+				ret, isRet := gb.Instrs[len(gb.Instrs)-1].(*ssa.Return)
+				if !isRet || gb == g.Recover {
+					continue
+				}
+				if len(ret.Results) != 1 || inner != nil {
+					return nil, false
+				}
+				pcs, okP := keyPieces(g, ret.Results[0])
+				if !okP {
+					return nil, false
+				}
+				inner = pcs
+			}
+			var out []string
+			for _, pc := range inner {
+				if strings.HasPrefix(pc, "P") {
+					var k int
+					if _, err := fmt.Sscanf(pc, "P%d", &k); err != nil || k >= len(x.Call.Args) {
+						return nil, false
+					}
+					cp, okC := classify(x.Call.Args[k])
+					if !okC {
+						return nil, false
+					}
+					out = append(out, cp)
+				} else {
+					out = append(out, pc)
+				}
+			}
+			return out, len(out) > 0
+		}
 		if core.StaticCalleeName(&x.Call) != "fmt.Sprintf" {
 			return nil, false
 		}
